@@ -61,6 +61,7 @@ type orchSignal struct {
 }
 
 type orchCall struct {
+	gate chan struct{}
 	id      int
 	kind    string
 	topic   string
@@ -73,6 +74,7 @@ type orchCall struct {
 }
 
 type orchRun struct {
+	holdNext chan struct{} // a call launched "held": the next SyncFactory invocation blocks on this until the call is released
 	membership map[tss.UniversalID]tss.PartyID // set by a setmap operation
 	sc      orchScenario
 	sch     *threshold.Scheme
@@ -168,6 +170,16 @@ func newOrchRun(sc orchScenario) *orchRun {
 		return origRBF(b, f, n)
 	}
 	r.sch.SyncFactory = func(members []uint16, _ func([]byte), _ func([]byte, uint16)) tss.Synchronizer {
+		r.mu.Lock()
+		hold := r.holdNext
+		r.holdNext = nil
+		r.mu.Unlock()
+		if hold != nil {
+			select {
+			case <-hold:
+			case <-time.After(2 * time.Second):
+			}
+		}
 		st := &scripted.StubSync{}
 		st.Plan = func(ctx context.Context, topic []byte, expected int) ([]uint16, error) {
 			name := r.name(topic)
@@ -308,7 +320,12 @@ func orchExec(ti int, sc orchScenario) []obj {
 				decide: map[string]chan string{"s1": make(chan string, 1), "s2": make(chan string, 1), "reg": make(chan string, 1)}}
 			r.mu.Lock()
 			r.calls[op.C] = c
-			if op.Kind == "kg" {
+			if op.Label == "held" {
+				// the call is started but kept inside the construction of its first synchroniser (before / while it checks for a session
+				// on the topic) until a "release" operation: it is not registered as the owner of the topic before
+				c.gate = make(chan struct{})
+				r.holdNext = c.gate
+			} else if op.Kind == "kg" {
 				r.byTopic["DKG"] = append(r.byTopic["DKG"], [2]interface{}{op.C, "s1"})
 				r.byTopic["DKG2"] = append(r.byTopic["DKG2"], [2]interface{}{op.C, "s2"})
 				r.byTopic["DKG2d"] = append(r.byTopic["DKG2d"], [2]interface{}{op.C, "s2"})
@@ -342,7 +359,22 @@ func orchExec(ti int, sc orchScenario) []obj {
 				}
 				r.signals <- orchSignal{c: op.C, what: "ret", res: rs}
 			}()
+			if op.Label == "held" {
+				time.Sleep(15 * time.Millisecond)
+				lines = append(lines, obj{"t": ti, "e": "callheld", "c": op.C})
+				continue
+			}
 			got, res = r.await(op.C, op.Expect)
+		case "release":
+			c := r.calls[op.C]
+			r.mu.Lock()
+			r.byTopic[c.topic] = append(r.byTopic[c.topic], [2]interface{}{op.C, "s1"})
+			r.byTopic[c.topic+"2"] = append(r.byTopic[c.topic+"2"], [2]interface{}{op.C, "s2"})
+			r.mu.Unlock()
+			close(c.gate)
+			got, res = r.await(op.C, op.Expect)
+			// reported as the call it is: the call takes effect now
+			op.E, op.Kind, op.Topic, op.Plan = "call", c.kind, c.topic, c.plan
 		case "step", "late":
 			c := r.calls[op.C]
 			stage := op.Label // the stage to resolve: s1 | s2 | be
